@@ -312,7 +312,7 @@ pub fn c18(cx: &Ctx) -> (Vec<Violation>, Cover) {
         match d.key {
             Key::Pay(p) => {
                 let obs = observed_payload(a, p);
-                let extra: Vec<_> = obs.iter().filter(|(i, _)| !d.exp.iter().any(|e| e.inst == **i)).collect();
+                let extra: Vec<_> = obs.iter().filter(|(i, _)| !d.exp.iter().any(|e| e.inst == **i && e.total > 0)).collect();
                 if !extra.is_empty() {
                     v.push(Violation::new(
                         "C18",
